@@ -263,11 +263,18 @@ func c08HammerPhase(c *Ctx, T time.Duration, phase string) {
 			}
 			continue
 		}
-		if r == 0 || s == 0 {
+		if r == 0 || s == 0 || noEphemeralPort(h.out.Err) {
 			c.Res.Count("hammer:not-asked-or-not-answered(not judged)", 1)
 			continue
 		}
 		w["asked_after_ms"], w["answered_after_ms"] = float64(r-h.start)/1e6, float64(s-r)/1e6
+		if time.Duration(h.end-h.start) > T+T/3 {
+			// a call that gives up on time returns at T; one that returns much later was not running when its deadline passed - and a
+			// goroutine that is kept from running while its reply sits in the socket buffer finds the deadline expired when it is let
+			// back in (the runtime reports the timeout, not the data): starvation of the process, whatever the heartbeat saw
+			c.Res.Inconcl(fmt.Sprintf("hammer: a call failed after %.0f ms (T=%v): its goroutine was kept from running (host overloaded): not judged", float64(h.end-h.start)/1e6, T))
+			continue
+		}
 		if overloaded || time.Duration(r-h.start) > T/10 || time.Duration(s-r) > T/10 {
 			c.Res.Inconcl(fmt.Sprintf("hammer: a call failed but the host stalled (worst %v, asked after %.0f ms, answered after %.0f ms): not judged", stall, w["asked_after_ms"], w["answered_after_ms"]))
 			continue
